@@ -837,3 +837,15 @@ NOT_READY = ["C01", "C02", "C05", "C09", "C10", "C12", "C13", "C14"]
 for _p in PROPS:
     PROPS[_p]["claimed"] = (_p not in NOT_READY) and ("level_text" in PROPS[_p])
 PROPS["C03"]["extra"] = [_engine_m("c08_completion")]
+
+# ---- thorough tier: only what has been seen to complete on the unchanged tree --------------------------------
+# A registered command that ends inconclusive on the unchanged tree is a broken check, and nothing may be claimed
+# from a harness that never finished.  Harnesses beyond the quick tier therefore stay in the thorough tier only
+# if they are listed here (observed: passed on the unchanged tree within their caps, see DESIGN.md section 12.8);
+# all others are kept as tier "extended" (bin/check <ID> --tier extended), which no registered command runs.
+THOROUGH_OBSERVED = set("""
+""".split())
+for _p in PROPS:
+    for _h in PROPS[_p]["harnesses"]:
+        if "quick" not in _h.tiers and "thorough" in _h.tiers and _h.short not in THOROUGH_OBSERVED:
+            _h.tiers = ("extended",)
